@@ -108,7 +108,9 @@ def replay_histories(run, cfg):
         hist = st["hist"]
         comb = CombinedRegistry()
         for i, name in enumerate(hist):
-            if i % 2:
+            if name == "?":                 # the registry is looked at between two additions
+                len(comb), list(comb), ("a" in comb)
+            elif i % 2:
                 comb.add_registry(build_member(world, name))
             else:
                 comb << build_member(world, name)
@@ -119,11 +121,11 @@ def replay_histories(run, cfg):
         if n == 40:
             run.add_sample({"history": hist, "spec_items": want, "impl_items": got})
         if sorted(got) != sorted(want) or len(comb) != len(want):
-            run.violation("C20", "C20:ReplayedHistory", "C20:ReplayedHistory|%s" % ("nested" if any(h.startswith("C") for h in hist) else "flat"),
+            run.violation("C20", "C20:ReplayedHistory", "C20:ReplayedHistory|%s%s" % ("nested" if any(h.startswith("C") for h in hist) else "flat", "|observed" if "?" in hist else ""),
                           "adding members %s: the specification gives items %s, the real CombinedRegistry holds %s (len %d)" % (hist, want, got, len(comb)),
                           {"kind": "replay-registry", "world": world, "hist": hist, "want": want})
         if n % 7 == 0:
-            events.append([observe(comb, "combined", {"members": [world[h] for h in hist]}, tagfn=lambda it: int(it.name[3:]), absent=["zz", ""])])
+            events.append([observe(comb, "combined", {"members": [world[h] for h in hist if h != "?"]}, tagfn=lambda it: int(it.name[3:]), absent=["zz", ""])])
     run.replayed["combined-histories"] = n
     shutil.rmtree(d, ignore_errors=True)
     return events
@@ -134,7 +136,8 @@ def filesystem_events(rng, q):
     from Bio import SeqIO
     from moclo.kits import ytk
     from moclo.registry.base import FilesystemRegistry
-    pls = [p for p in registries.plasmids() if p[0] == "YTKRegistry"]
+    # "typed GenBank plasmids": plasmids the registry's base (YTKPart) can characterize - the part plasmids, not the vectors
+    pls = [p for p in registries.plasmids() if p[0] == "YTKRegistry" and ytk.YTKPart in p[3].__mro__]
     from moclo.registry.ytk import YTKRegistry
     yreg = YTKRegistry()
     evs = []
@@ -147,7 +150,7 @@ def filesystem_events(rng, q):
             for i, (_, key, seq, cls) in enumerate(chosen):
                 rec = yreg[key].entity.record
                 ext = exts[i % len(exts)] if i < len(exts) else rng.choice(exts)
-                stem = "%s_%d" % (key, i) if rng.random() < 0.5 else "plasmid-%d" % i
+                stem = rng.choice(["%s_%d" % (key, i), "plasmid-%d" % i, "%s.v%d" % (key, i), "lab.%d.final" % i])
                 with open(os.path.join(d, "%s.%s" % (stem, ext)), "w") as f:
                     SeqIO.write(rec, f, "genbank")
                 if ext in ("gb", "gbk"):
@@ -228,7 +231,10 @@ def replay_case(rec):
         loader.load()
         comb = CombinedRegistry()
         for name in case["hist"]:
-            comb << build_member(case["world"], name)
+            if name == "?":
+                len(comb), list(comb)
+            else:
+                comb << build_member(case["world"], name)
         got = [(k, int(comb[k].name[3:])) for k in comb]
         log("replay: %s -> %s ; specification %s" % (case["hist"], got, case["want"]))
         return sorted(map(tuple, got)) != sorted(map(tuple, case["want"]))
